@@ -465,6 +465,8 @@ impl Ohkami {
                 }
             };
 
+            #[cfg(ohkami_verif)] crate::__verif::emit("accepted", 0, 0);
+
             let session = Session::new(
                 router.clone(),
                 connection,
